@@ -85,7 +85,7 @@ pub fn run(toks: &[&str]) -> String {
             // execution is restricted to programs of simulable size
             let nq = int.get_q_alias().matches('"').count() / 2;
             if nq > 12 {
-                return format!("OKNOEXEC {}", nq);
+                return format!("OKNOEXEC {} {}", nq, hex_str(&int.get_ops_tree()));
             }
             format!("OK {}", finish_report(int))
         }
